@@ -1275,7 +1275,10 @@ def ufunc_per_section_helper(
 
     if x_coords is None and (
         (dataarray is not None and hasattr(dataarray.data, "chunks"))
-        or (subtract_from_dataarray and hasattr(subtract_from_dataarray.data, "chunks"))
+        or (
+            subtract_from_dataarray is not None
+            and hasattr(subtract_from_dataarray.data, "chunks")
+        )
     ):
         concat = da.concatenate
     else:
